@@ -9,6 +9,7 @@ import NixModel.Lemmas.C18Total
 import NixModel.Lemmas.C18Names
 import NixModel.Lemmas.C18NoLoss
 import NixModel.Lemmas.C18Stale
+import NixModel.Lemmas.C18Read
 
 /-!
 # C18 — format upgrade preserves content, is idempotent and resumable
@@ -507,6 +508,31 @@ theorem C18_texts_verbatim (lib : List Nat) (r : Nat) (f : File) (hwf : WF f) (s
     cases x <;> cases y <;> exact this.symm
   exact ⟨fun h => ⟨y, hy, key _ _ hun h⟩, fun h => ⟨y, hy, key _ _ hdf h⟩⟩
 
+/-- nixio chooses the reader of property values by the *file's* header version (`Property.values`: `filever < (1, 1, 1)`
+→ `_read_old_values`; the bound is regenerated from nixio/property.py), not by the layout of the dataset. For an old
+file (version below the bound) and a library at or above it: every compound property reads its values through the
+old-layout reader before the upgrade, and after a successful upgrade the converted property reads the same values
+through the plain reader — the version has been raised by then. In between, the version bump being the last step has
+a price that the property accepts ("still recognised as old"): a property that is already converted and holds values
+cannot be read through nixio until the re-run has raised the version. -/
+theorem C18_reader_follows_version (lib : List Nat) (r : Nat) (f : File) (hwf : WF f)
+    (hnamed : ∀ e ∈ f.props, e.1 ≠ []) (hold : upToDate lib f = false)
+    (hbelow : f.version < Gen.valuesOldBelow) (hlib : ¬ lib < Gen.valuesOldBelow) :
+    ((upgrade lib r f).2 = none → ∀ p o, (p, PObj.old o) ∈ f.props →
+      readValues Gen.valuesOldBelow f.version (.old o) = .values (o.rows.map (·.value)) ∧
+      ∃ n, lookup (upgrade lib r f).1.props p = some (.new n) ∧
+        readValues Gen.valuesOldBelow (upgrade lib r f).1.version (.new n) = .values (o.rows.map (·.value))) ∧
+    (∀ k p n, k < (collect lib f).length → (p, PObj.new n) ∈ (interrupt lib r k f).1.props → n.values ≠ [] →
+      readValues Gen.valuesOldBelow (interrupt lib r k f).1.version (.new n) = .raises) ∧
+    Gen.uncertaintyOldBelow = Gen.valuesOldBelow := by
+  refine ⟨fun hok p o hp => ⟨readValues_old_below hbelow o, ?_⟩, fun k p n hk _ hv => ?_, rfl⟩
+  · obtain ⟨n, hl, hv, _⟩ := (C18_content_full lib r f hwf hnamed hold hok).1.1 p o hp
+    refine ⟨n, hl, ?_⟩
+    rw [upgrade_version hold hok, readValues_new_from hlib]
+    exact congrArg ReadOut.values (congrArg PropView.values hv)
+  · rw [(C18_version_old_while_interrupted lib r k f hk).1]
+    exact readValues_new_below hbelow n hv
+
 /-- a property `a` with a reference text next to a property named `a.reference` -/
 def clash : File :=
   { version := [1, 1, 0], id := .absent,
@@ -630,6 +656,17 @@ example : ((interrupt [1, 2, 1] 1 4 sample).1.arrays.map fun a => a.dims.map fun
     (sample.arrays.map fun a => a.dims.map fun d => (d.link.isSome, d.alias, readDim a d))
       = [[(false, true, ⟨"[1/1]", some "s", none⟩)]] := by
   unfold interrupt
+  rw [sample_collect]
+  decide +kernel
+/-- `C18_reader_follows_version` on `sample` (version 1.1.0, library 1.2.1): interrupted before step 2 the converted
+property `a` is a plain dataset in a file that is still old - `Property.values` raises; after the complete upgrade it
+reads `x` again -/
+example : sample.version < Gen.valuesOldBelow ∧ ¬ ([1, 2, 1] : List Nat) < Gen.valuesOldBelow ∧
+    ((lookup (interrupt [1, 2, 1] 1 2 sample).1.props ["s", "properties", "a"]).map
+      (readValues Gen.valuesOldBelow (interrupt [1, 2, 1] 1 2 sample).1.version)) = some .raises ∧
+    ((lookup (upgrade [1, 2, 1] 1 sample).1.props ["s", "properties", "a"]).map
+      (readValues Gen.valuesOldBelow (upgrade [1, 2, 1] 1 sample).1.version)) = some (.values [.str "x"]) := by
+  unfold interrupt upgrade
   rw [sample_collect]
   decide +kernel
 example : (upgrade [1, 2, 1] 1 sample).2 = none ∧ upToDate [1, 2, 1] sample = false := by
